@@ -349,21 +349,9 @@ def vectors_of(o):
 
 
 def case_in_hypotheses(case):
-    """the static part of the theorems' hypotheses (input signature of the refuted lemmas otherwise)"""
-    if case.get("odd"):
-        return False
-    if not positive_nonneg(case):
-        return False
-    if not all(wf_vector(v) for o in case["objs"] for v in vectors_of(o)):
-        return False
-    for c in case["cmds"]:
-        if c[0] in ("res", "worker") and c[2][0] == "getalloc":
-            return False
-        if c[0] == "res" and c[2][0] == "alloc" and c[2][3] < 0:
-            return False
-        if c[0] == "res" and c[2][0] == "allocm" and any(q < 0 for _, q in c[2][1]):
-            return False
-    return True
+    """the static part of the theorems' hypotheses: since /repo 0f42ab1 only `the configured quantities are
+    non-negative` is left (mixed vectors, negative or empty requests, re-placements, getters are all covered)"""
+    return all(q >= 0 for o in case["objs"] for v in vectors_of(o) for _, q in v)
 
 
 class Mon:
@@ -443,8 +431,7 @@ def analyse(ci, case, run, mon, stats):
                 if not taint[i]:       # a copy of a well-formed object must not raise
                     mon.add("M-same", "(%s, %s)" % (gval([0]), gval([cur[n][1]])), where + ["copy-raised"])
             elif c[0] == "copy":
-                batchy = any(has_batch(w, S) for w in workers_of(prev[i]))
-                taint.append(taint[i] or batchy)
+                taint.append(taint[i])
                 if not taint[n]:
                     mon.add("M-same", "(%s, %s)" % (gval(public(prev[i])), gval(public(cur[n]))), where + ["copy-same-getters"])
                     emit_obj(n, cur[n], where + [n])
@@ -460,22 +447,16 @@ def analyse(ci, case, run, mon, stats):
         op = c[2]
         before = prev[i]
         # ---- dynamic part of the hypotheses: fresh placements / loads, requests that record something
-        if op[0] == "place":
-            t = op[1]
-            resident = any(t in placed_of(w) for w in workers_of(before)) or (before[0] == 2 and t in [x for x, _ in before[1][1]])
-            if resident:
-                taint[i] = True
-            cand = [S[op[2]]] if c[0] == "worker" else ([S[op[3]]] if op[3] is not None else [S[s] for s in op[2]])
-            if any(no_positive(s["req"]) for s in cand):
-                taint[i] = True
-        if op[0] == "load":
+        if op[0] == "load":        # finding FG (not repaired): a profile loaded where it is already loaded
             p = op[1]
             ws = workers_of(before)
             if c[0] == "pool" and op[3] is not None:
                 ws = [w for wid, w in zip(wid_lists[i], ws) if wid == op[3]]
-            if any(p in profiles_of(w) for w in ws) or no_positive(S[op[2]]["req"]):
+            if any(p in profiles_of(w) for w in ws):
                 taint[i] = True
-        poolwide = c[0] == "pool" and op[0] in ("load", "evict") and op[-1] is None and len(wid_lists[i]) >= 2
+        # FD2: the pool-wide evict is not atomic; FD3: a batch strategy used as loading strategy
+        poolwide = c[0] == "pool" and op[-1] is None and len(wid_lists[i]) >= 2 and \
+            (op[0] == "evict" or (op[0] == "load" and S[op[2]]["batch"]))
         # ---- monitors
         if not taint[i]:
             emit_obj(i, cur[i], where + [i])
@@ -575,6 +556,8 @@ def still_fails(w, run):
         return codes[-1] == 1
     if k == "mixed-vector-copy-getters":  # the copy answers a getter differently
         return public(last[0])[1] != public(last[1])[1]
+    if k in ("pool-wide-evict", "pool-load-batch"):   # refused, but the first worker changed
+        return codes[-1] in (1, 2) and objs_at(obs, n)[0][1][0][0] != objs_at(obs, n - 1)[0][1][0][0]
     if k == "pool-wide-load":            # refused, but the first worker changed
         return codes[-1] == 1 and objs_at(obs, n)[0][1][0][0] != objs_at(obs, n - 1)[0][1][0][0]
     if k == "timer-aliasing":            # stepping the copy changed the original
@@ -747,7 +730,7 @@ def run(ctx):
     built = ctx.build("C04", deps=["Model/Worker.v"])
     _t(ctx, "build")
     quick = ctx.tier == "quick"
-    n = 400 if quick else 3000
+    n = 300 if quick else 3000
     cases = [gen_case(ctx.rng, 10 if quick else 14) for _ in range(n)]
     runs = core.run_impl("ledger.py", {"cases": cases})["runs"]
     impl = [r["obs"] for r in runs]
@@ -755,9 +738,9 @@ def run(ctx):
     ctx.rules.append("S-ledger: histories of allocate/allocate_multiple/deallocate/get_allocated_resources on Resources, "
                      "place (plain, batch)/remove/load/evict/step/get_allocated_resources on Worker, place (all branches)/"
                      "remove/load/evict/step on WorkerPool, copy/deepcopy of any of them, on 1-3 resource names x 1-3 "
-                     "instances (`any` cells and `any`/specific/absent requests, zero quantities, competing request keys; "
-                     "about a third of the cases also outside the theorems' hypotheses: mixed any+specific vectors, negative "
-                     "quantities, re-placing a resident task, get_allocated_resources on a stranger); after every operation "
+                     "instances (`any` cells and `any`/specific/absent requests, zero quantities, competing request keys, mixed "
+                     "any+specific vectors, negative quantities, re-placing a resident task, get_allocated_resources on a "
+                     "stranger); after every operation "
                      "every live object is observed (getters + ledger cells); distinct = distinct (objects, history); "
                      "non-trivial = at least one refused and one accepted operation")
     seen = set()
@@ -860,7 +843,7 @@ def run(ctx):
 
 def _run_sim_idle(ctx):
     try:
-        sim_idle_stream(ctx, 30 if ctx.tier == "quick" else 200)
+        sim_idle_stream(ctx, 20 if ctx.tier == "quick" else 200)
     except core.ModelEvalError as e:
         ctx.broken.append({"kind": "monitor", "name": "S-sim-idle", "detail": str(e)[-600:]})
 
